@@ -19,12 +19,13 @@ LEVEL_TEXT = "Fault-plan search: the adversary's choices are enumerated by a gen
 ASSUMPTIONS = ["SHA-256d collisions are not modelled", "the adversary controls share files and read answers but not the cap"]
 REQUIRED_CLASSES = ["graft-consistent", "field-set", "flip", "truncate", "swap", "equivocate", "read-failed", "read-ok"]
 BUDGET = {"quick": 900, "thorough": 7200}
+MAXSTEPS = 4000   # a read of <=6 segments from <=6 shares needs a few hundred messages; beyond this the read is classified "livelock" (termination is C46's business)
 REGIONS = ["data", "crypttext_hash_tree", "block_hashes", "share_hashes", "ueb_len", "ueb", "plaintext_hash_tree"]
 HDR = ["share_version", "block_size", "data_size", "o_data", "o_plaintext_hash_tree", "o_crypttext_hash_tree", "o_block_hashes", "o_share_hashes", "o_uri_extension", "container_version"]
 
 
 def plan(tier):
-    n = 40 if tier == "quick" else 2500
+    n = 100 if tier == "quick" else 2500
     return [{"kind": "hyp", "n": n} for _ in range(16)]
 
 
@@ -160,7 +161,10 @@ def run_case(case, ctx):
         outcomes = []
         for (off, ln) in ([0, None], case["read"], [0, None]):
             c = Consumer()
-            r = g.sched.run_until(node.read(c, off, ln))
+            before = g.sched.delivered
+            r = g.sched.run_until(node.read(c, off, ln), maxsteps=MAXSTEPS)
+            if r[0] == "hang" and g.sched.delivered - before >= MAXSTEPS - 1:
+                r = ("livelock", None)
             want = data[off:] if ln is None else data[off:off + ln]
             got = c.data()
             desc = "k=%d N=%d seg=%d size=%d servers=%d damage=%r read(offset=%d,size=%r)" % (k, n, seg, size, case["servers"], case["damage"], off, ln)
@@ -173,7 +177,7 @@ def run_case(case, ctx):
             elif r[0] == "err":
                 classes.add("read-failed")
             else:
-                classes.add("read-hang")   # liveness is C46's business; safety holds (checked above)
+                classes.add("read-" + r[0])   # liveness is C46's business; safety holds (checked above)
             outcomes.append(r[0])
     finally:
         g.stop()
